@@ -196,6 +196,7 @@ Proof.
   intros Hn NE W. destruct cols as [|c0 rest]; [congruence|].
   pose proof (wf_layer_length R n c0 (Forall_inv W)) as L0.
   unfold GridBackend.grid_statevector_cols, GridBackend.grid_product. cbn [app].
+  rewrite (wf_not_scalar R n c0 Hn (Forall_inv W)). cbn [andb].
   destruct c0 as [|e0 c0]; [cbn in L0; lia|].
   destruct (reduce_kron_spec R rO rI radd rmul rsub ropp Rth (map (ofE R rI) (e0 :: c0)) ltac:(discriminate)) as (m0 & Hm & [Hm1 _]).
   rewrite (kron_layer_width R rI rmul n (e0 :: c0) (Forall_inv W)) in Hm1. rewrite Hm. cbn [rbind].
